@@ -296,7 +296,7 @@ class DocGen(object):
                 elif kind == 'begingroup':
                     src.append('\\begingroup ' + isrc + '\\endgroup ' + tail)
                 elif kind == 'env':
-                    e = rnd.choice(['center', 'quote', 'itemize'])
+                    e = rnd.choice(['center', 'quote', 'itemize', 'venv', 'vnest'])      # the last two are user-defined (\newenvironment)
                     src.append('\\begin{%s}%s%s\\end{%s}%s' % (e, '\\item ' if e == 'itemize' else '', isrc, e, tail))
                 elif kind == 'math':
                     src.append('$' + isrc + '$ ' + tail)
@@ -311,7 +311,8 @@ class DocGen(object):
 def gen_document(rnd):
     g = DocGen(rnd)
     body, exp = g.gen(0)
-    src = '\\documentclass{article}\\begin{document}' + body + ' End\\end{document}'
+    src = ('\\documentclass{article}\\newenvironment{venv}{}{}\\newenvironment{vnest}{\\begin{quote}}{\\end{quote}}'
+           '\\begin{document}' + body + ' End\\end{document}')
     return src, exp
 
 
